@@ -80,8 +80,8 @@ def write_sites(sx: SCtx):
                 elif t in (INDEX, S.sattr("_sep_count")):
                     out.append((ev.nid, None, "attr", f"sets {S.show(t)}", ev))
         elif ev.kind == "call":
-            for t in S.alts(ev.term):
-                if t[1] == OBJ_SETATTR and len(t[2]) == 3 and t[2][0] == S.SELF:
+            for t in S.instances(ev.term, 16):
+                if t[:1] == ("call",) and t[1] == OBJ_SETATTR and len(t[2]) == 3 and t[2][0] == S.SELF:
                     k = t[2][1]
                     if k[:1] == ("const",):
                         if k[1].strip("'\"") in ("_index", "_sep_count", "_data"):
@@ -211,7 +211,18 @@ def _invalidate_on_write(col, rule="C07.R1"):
         vals = {m["k"][1].strip("'\""): m["v"] for ev, m in sets}
         okf = vals.get("_index_cache") == ("item", fill, 0) and vals.get("_count_cache") == ("item", fill, 1)
     rets = sx.of_kind("return")
-    okf = okf and bool(rets) and all(r.value == ("tuple", (S.sattr("_index_cache"), S.sattr("_count_cache"))) for r in rets)
+
+    def _ret_ok(r):
+        v = r.value
+        if not (v[:1] == ("tuple",) and len(v[1]) == 2):
+            return False
+        filled = is_none in sx.conds(r.nid)
+        for comp, attr, i in ((v[1][0], "_index_cache", 0), (v[1][1], "_count_cache", 1)):
+            # the attribute itself, or -- on the path that has just filled it -- the value stored into it
+            if not (comp == S.sattr(attr) or (filled and fill is not None and comp == ("item", fill, i))):
+                return False
+        return True
+    okf = okf and bool(rets) and all(_ret_ok(r) for r in rets)
     col.add(rule, "Table._get_cache#lazy-fill-when-None", okf, sx.loc(sx.fn),
             "the cache is (re)built from the current column exactly when _index_cache is None, and both dictionaries come from the same fill", "")
 
@@ -230,11 +241,16 @@ def _row_resolution(sx: SCtx, row_from):
             for a in S.alts(tm):
                 if a[:1] == ("sub",) and any(x[:1] == ("sub",) and x[1] == DATA for x in S.alts(a[1])):
                     idx = a[2]
-                    insts = S.instances(idx, 64)
-                    if len(insts) >= 3:
-                        hits.append(ev)
-                        for i in insts:
-                            out.add(S.show(S.subst(i, {("item", row_from, 1): ("glob", "ROW"), ("sub", row_from, ("const", "1")): ("glob", "ROW")}), False))
+                    rows = (("item", row_from, 1), ("sub", row_from, ("const", "1")))
+                    insts = [i for i in S.instances(idx, 64) if any(x in rows for x in S.subterms(i))]
+                    if not insts:
+                        continue    # not a cell access by (col, row): e.g. the whole-column write self._data[key][:] = v
+                    hits.append(ev)
+                    for i in insts:
+                        out.add(S.show(S.subst(i, {("item", row_from, 1): ("glob", "ROW"), ("sub", row_from, ("const", "1")): ("glob", "ROW")}), False))
+    # the resolution alternatives may sit in one expression or be spread over several returns / stores
+    if len(out) < 3:
+        return set(), []
     return out, hits
 
 
